@@ -45,6 +45,7 @@ THEOREMS = [
     'CpProofs.C08.alias_breaks_independence',
     'CpProofs.C08.C08_merge_section',
     'CpProofs.C08.C08_handler_tool_args',
+    'CpProofs.C08.C08_custom_toolbox',
     'CpProofs.C08.C08_ns_delivers',
     'CpProofs.C08.C08_ns_only_registered',
     'CpProofs.C08.C08_ns_routing',
@@ -467,7 +468,7 @@ def ini_text(sections):
 def run_config_case(case):
     cherrypy = T.cp()
     ensure_tools()
-    built = T.Built(case['tree'])
+    built = T.Built(case['tree'], instrument=True)      # (dispatcher calls are recorded: the oracle learns what they consumed)
     saved = dict(cherrypy.config)
     missing = object()
     try:
@@ -604,7 +605,24 @@ def oracle_config(built, case, o, req):
             if isinstance(v, str) and v.startswith('S:') and not seg_prefix(v[2:], segs):
                 bad.append(('key %r of request %r has the value of section %r, which is not on the request path'
                             % (k, o['path_info'], v[2:]), 'section_leak'))
-    if not has_disp:
+    if has_disp:
+        # trees with `_cp_dispatch`: the same level-by-level merge, the recorded dispatcher calls telling which path
+        # prefixes each hop covered (every one of their sections applies)
+        verb = None
+        if case['kind'] == 'M' and o['ran']:
+            f = T.obj_for_pid(built, o['ran'][0][0])
+            verb = getattr(f, '_cp_config', None)
+        keys = [k for k in GEN_KEYS if not k.startswith('tools.staticdir.s')]
+        galts = H.ref_effective_general(built.root, case['kind'], o['path_info'], o.get('disp_log'), o['ran'], case['glob'],
+                                        case['sections'], lambda ob: getattr(ob, '_cp_config', None) if ob is not None else None,
+                                        verb, keys)
+        if galts is not None:
+            strip = [c for c, ch in galts]
+            if cfg not in strip:
+                diff = {k: (cfg.get(k), strip[0].get(k)) for k in set(cfg) | set(strip[0]) if cfg.get(k) != strip[0].get(k)}
+                bad.append(('effective config of %r differs from the level-by-level merge (sections of every path prefix a '
+                            'dispatcher hop covers included): {key: (got, want)} = %s' % (o['path_info'], diff), 'merge_mismatch'))
+    else:
         alts = ref_effective(built, case, o, req)
         strip = alts
         if cfg not in strip:
